@@ -11,6 +11,7 @@ namespace Py
 /-- the framework's small error enum (BUILDING §2.6) -/
 inductive Err where
   | Index | Value | Key | Type | NotImplemented | Exception
+  | Fuel   -- a `while` loop did not finish within the `fuel` parameter (never a Python exception)
 deriving Repr, DecidableEq, Inhabited
 
 /-- `range(lo, hi)` -/
@@ -40,7 +41,7 @@ instance : Show Bool := ⟨fun b => if b then "True" else "False"⟩
 instance : Show Unit := ⟨fun _ => "None"⟩
 instance : Show Err := ⟨fun e => match e with
   | .Index => "Index" | .Value => "Value" | .Key => "Key" | .Type => "Type"
-  | .NotImplemented => "NotImplemented" | .Exception => "Exception"⟩
+  | .NotImplemented => "NotImplemented" | .Exception => "Exception" | .Fuel => "Fuel"⟩
 instance {α β : Type} [Show α] [Show β] : Show (α × β) := ⟨fun p => "<" ++ Show.show_ p.1 ++ " " ++ Show.show_ p.2 ++ ">"⟩
 instance {α : Type} [Show α] : Show (List α) := ⟨fun l => "[" ++ " ".intercalate (l.map Show.show_) ++ "]"⟩
 instance {α : Type} [Show α] : Show (Option α) := ⟨fun o => match o with | none => "None" | some x => Show.show_ x⟩
